@@ -73,6 +73,7 @@ impl Profile {
                 ("bool_lin_le", 1),
                 ("bool_lin_eq", 1),
                 ("predicate_clause", 3),
+                ("view_clause", 2),
             ],
             nint: (2, 5),
             nbool: (1, 2),
@@ -90,7 +91,7 @@ impl Profile {
     /// constraints: exercises the nogood propagator's watchers for all four predicate kinds.
     pub fn clause_heavy() -> Profile {
         let mut p = Profile::mixed();
-        p.kinds = vec![("predicate_clause", 6), ("lin_le", 2), ("lin_ne", 1), ("bin_ne", 1), ("bin_lt", 1)];
+        p.kinds = vec![("predicate_clause", 6), ("view_clause", 3), ("lin_le", 2), ("lin_ne", 1), ("bin_ne", 1), ("bin_lt", 1)];
         p.nint = (2, 4);
         p.nbool = (0, 1);
         p.ncons = (2, 6);
@@ -288,6 +289,25 @@ pub fn gen_con(r: &mut SmallRng, m: &Model, k: &str, views: bool) -> Option<Con>
                     .collect(),
             )
         }
+        "view_clause" => {
+            // predicates over scaled / offset views; right-hand sides that the view cannot hit included
+            if ints.is_empty() {
+                return None;
+            }
+            let n = r.gen_range(1..=3);
+            Con::VClause(
+                (0..n)
+                    .map(|_| {
+                        let var = ints[r.gen_range(0..ints.len())];
+                        let d = &m.vars[var];
+                        let v = View { var, s: [1, -1, 2, -2, 3, -3][r.gen_range(0..6)], o: r.gen_range(-2..=2) };
+                        let (a, b) = (v.s * d.lo() + v.o, v.s * d.hi() + v.o);
+                        let c = r.gen_range(a.min(b) - 1..=a.max(b) + 1);
+                        (v, [PK::Eq, PK::Ne, PK::Ne, PK::Ge, PK::Le][r.gen_range(0..5)], c)
+                    })
+                    .collect(),
+            )
+        }
         "conjunction" => {
             if bools.is_empty() {
                 return None;
@@ -327,7 +347,7 @@ pub fn pick_kind<'a>(r: &mut SmallRng, kinds: &'a [(&'static str, u32)]) -> &'a 
 }
 
 pub fn gen_reif(r: &mut SmallRng, m: &Model, c: &Con, reif_p: f64) -> Reif {
-    if matches!(c, Con::PClause(..) | Con::LitDef(..)) {
+    if matches!(c, Con::PClause(..) | Con::VClause(..) | Con::LitDef(..)) {
         return Reif::Plain;
     }
     let bools: Vec<usize> = (0..m.vars.len()).filter(|&i| m.vars[i].kind == VarKind::Bool).collect();
